@@ -1044,6 +1044,10 @@ def simplify(coef, net, free):
             for i2, (hh, xx) in enumerate(f):
                 if i2 != i1 and hh == h2 and (xx == want or (H[h2].sym and len(xx) >= 2 and xx[:-2] + (xx[-1], xx[-2]) == want)):
                     f = [g for k, g in enumerate(f) if k not in (i1, i2)]
+                    still = {j for _, jx in f for j in jx}
+                    for j in set(x1) | set(xx):
+                        if j not in free and j not in still:
+                            coef = coef * ST.size[j]      # a summed index whose summand became 1
                     changed = True
                     break
             if changed:
